@@ -87,7 +87,7 @@ pub fn assemble(src: &str) -> Result<Assembled, String> {
                 fn_map,
                 undefined_labels,
             } = ctx;
-            let mut undefined: Vec<(usize, String)> = undefined_labels.into_iter().collect();
+            let mut undefined: Vec<(usize, String)> = undefined_labels.iter().map(|(a, b)| (*a, b.clone())).collect();
             undefined.sort();
             Ok(Assembled {
                 code: out.code,
